@@ -834,11 +834,11 @@ pub fn eval_case(c: &Case13) -> CaseOutcome {
                 if !own_exit(*code) || out.panicked() {
                     return CaseOutcome::Fail { key: "c13|recursion|abnormal-exit".into(), what: format!("recursive macro use: exit status {} {}", code, out.err_str().lines().next().unwrap_or("")), replay: creplay };
                 }
-                if !so.contains("Syntax Error") {
+                if !looks_like_diagnostic(&so) {
                     return CaseOutcome::Fail { key: "c13|accepted|recursive".into(), what: format!("use {} must be rejected (recursive) but no diagnostic was printed (stdout starts {:?})", ui, so.chars().take(80).collect::<String>()), replay: creplay };
                 }
                 // "Syntax Error at LINE:COL : text"
-                let got: Option<usize> = so.split("Syntax Error at ").nth(1).and_then(|t| t.split(':').next()).and_then(|n| n.trim().parse().ok());
+                let got: Option<usize> = so.to_ascii_lowercase().split("syntax error at ").nth(1).and_then(|t| t.split(':').next().map(|x| x.to_string())).and_then(|n| n.trim().parse().ok());
                 let want = line_of(&r.text, r.use_offsets[*ui]);
                 let span = r.text[r.use_offsets[*ui]..].find(')').map(|k| line_of(&r.text, r.use_offsets[*ui] + k)).unwrap_or(want);
                 let earlier: Vec<usize> = r.use_offsets[..*ui].iter().map(|o| line_of(&r.text, *o)).collect();
@@ -1034,7 +1034,7 @@ fn run_chains(ctx: &Ctx) {
             }
             let s = out.out_str();
             let ran = s.contains('!') && s.contains("BX : 0x0001");
-            let diagnosed = s.contains("Syntax Error");
+            let diagnosed = s.contains("Syntax Error") || (!s.contains('!') && !s.contains("AX : ") && looks_like_diagnostic(&s));
             if cyclic {
                 if !diagnosed || s.contains("AX : ") {
                     ctx.fail(Failure { key: "c13|chain|cycle-not-rejected".into(), what: format!("cyclic macro chain of length {} was not rejected (output starts {:?})", d + 1, s.chars().take(100).collect::<String>()), replay });
